@@ -110,6 +110,8 @@ class FunctionAxiomsBase(_Contract):
         "PyVC.ax_sin_neg": "axiom_sin_odd",
         "PyVC.ax_cos_zero": "axiom_cos_zero",
         "PyVC.ax_sin_zero": "axiom_sin_zero",
+        "PyVC.ax_cexp_re": "axiom_real_part_of_complex_exp",
+        "PyVC.ax_cexp_im": "axiom_imaginary_part_of_complex_exp",
         "PyVC.ax_exp_strict_mono": "axiom_exp_strictly_increasing_and_injective",
         "PyVC.ax_log_strict_mono": "axiom_log_strictly_increasing_and_injective_on_positive_numbers",
         "PyVC.ax_log_one": "axiom_log_one_is_zero",
